@@ -8,6 +8,7 @@ if [ -n "$(git -C /repo status --porcelain -- dd)" ]; then echo "/repo/dd is not
 for D in seeded/$PAT; do
   N=$(basename "$D")
   PROPS=$(/venv/bin/python -c "import json,sys; print(' '.join(json.load(open('$D/meta.json'))['caught_by']))")
+  if [ -z "$PROPS" ]; then echo "$N -> skipped (no check listed: see meta.json status)"; continue; fi
   git -C /repo apply "/verif/$D/patch.diff" || { echo "$N: patch does not apply"; continue; }
   RES=""
   for P in $PROPS; do
